@@ -256,4 +256,216 @@ theorem inv_run {cs : List Caller} {base : Idx} (hall : HoldsAll cs) (sched : Li
   | nil => intro σ h; exact h
   | cons i t ih => intro σ h; exact ih _ (inv_step hall h i)
 
+
+/-! ## Progress -/
+
+/-- the mutex holder always has an enabled step (lock order newAddrMtx → bbolt writer → s.mtx, nobody else inside) -/
+theorem holder_moves {c : Caller} {σ : State} {h : Nat} (hok : HolderOK c σ h) :
+    (stepC c σ h).pc h ≠ σ.pc h := by
+  unfold HolderOK at hok
+  unfold stepC
+  cases hp : σ.pc h with
+  | idle => simp [hp] at hok
+  | done => simp [hp] at hok
+  | wantTx => simp only [hp] at hok ⊢; simp [hok.1]
+  | inTx =>
+    simp only [hp] at hok ⊢
+    by_cases hsk : c.skip = true
+    · simp [hsk]
+    · by_cases hcd : c.cond = true
+      · simp only [hsk, hcd, hok.2.1, Option.isNone_none, if_true, Bool.false_eq_true, if_false]
+        split <;> simp
+      · simp [hsk, hcd]
+  | inTx2 => simp only [hp] at hok ⊢; simp [hok.2.1]
+  | locked => simp
+  | read r => simp
+  | wrote r => simp
+  | toCommit ro =>
+    simp only
+    by_cases hd : c.dry = true
+    · simp [hd]
+    · cases ro <;> simp [hd]
+  | cbWait r => simp only [hp] at hok ⊢; simp [hok.2.1]
+  | cbLocked r => simp
+  | cbSet r => simp
+  | toRelease => simp
+
+theorem inv_no_deadlock {cs : List Caller} {base : Idx} {σ : State} (hall : HoldsAll cs) (hinv : Inv cs base σ)
+    (hnot : ¬ allDone cs σ) : ∃ i, i < cs.length ∧ (step cs σ i).pc i ≠ σ.pc i := by
+  cases hmx : σ.mtx with
+  | some h =>
+    obtain ⟨c, hc, hok⟩ := hinv.holder h hmx
+    have hlt : h < cs.length := by
+      rcases Nat.lt_or_ge h cs.length with hl | hl
+      · exact hl
+      · rw [List.getElem?_eq_none hl] at hc; cases hc
+    refine ⟨h, hlt, ?_⟩
+    unfold step; rw [hc]
+    exact holder_moves hok
+  | none =>
+    unfold allDone at hnot
+    have : ∃ i, i < cs.length ∧ σ.pc i ≠ .done := by
+      apply Classical.byContradiction
+      intro hcon
+      apply hnot
+      intro i hi
+      apply Classical.byContradiction
+      intro hne
+      exact hcon ⟨i, hi, hne⟩
+    obtain ⟨i, hi, hne⟩ := this
+    have hidle : σ.pc i = .idle := by
+      rcases hinv.others i (by rw [hmx]; intro e; cases e) with h | h
+      · exact h
+      · exact absurd h hne
+    refine ⟨i, hi, ?_⟩
+    have hc : cs[i]? = some cs[i] := List.getElem?_eq_getElem hi
+    unfold step; rw [hc]
+    have hm := hall cs[i] (List.getElem_mem hi)
+    simp [stepC, hidle, hm, hmx]
+
+
+def rank : PC → Nat
+  | .idle => 0 | .wantTx => 1 | .inTx => 2 | .inTx2 => 3 | .locked => 4 | .read _ => 5 | .wrote _ => 6
+  | .toCommit _ => 7 | .cbWait _ => 8 | .cbLocked _ => 9 | .cbSet _ => 10 | .toRelease => 11 | .done => 12
+
+theorem rank_le (p : PC) : rank p ≤ 12 := by cases p <;> simp [rank]
+
+theorem stepC_pc_other (c : Caller) (σ : State) (i j : Nat) (h : j ≠ i) : (stepC c σ i).pc j = σ.pc j := by
+  unfold stepC
+  cases hp : σ.pc i <;> simp only [] <;> (repeat' split) <;> simp [upd_other _ _ _ _ h]
+
+theorem stepC_rank (c : Caller) (σ : State) (i : Nat) :
+    (stepC c σ i).pc i = σ.pc i ∨ rank (σ.pc i) < rank ((stepC c σ i).pc i) := by
+  unfold stepC
+  cases hp : σ.pc i <;> simp only [] <;> (repeat' split) <;> simp [hp, rank]
+
+theorem step_pc_other (cs : List Caller) (σ : State) (i j : Nat) (h : j ≠ i) : (step cs σ i).pc j = σ.pc j := by
+  unfold step; cases cs[i]? with
+  | none => rfl
+  | some c => exact stepC_pc_other c σ i j h
+
+theorem step_rank (cs : List Caller) (σ : State) (i : Nat) :
+    (step cs σ i).pc i = σ.pc i ∨ rank (σ.pc i) < rank ((step cs σ i).pc i) := by
+  unfold step; cases cs[i]? with
+  | none => left; rfl
+  | some c => exact stepC_rank c σ i
+
+def msum (f : Nat → Nat) : Nat → Nat
+  | 0 => 0
+  | n + 1 => msum f n + f n
+
+theorem msum_congr {f g : Nat → Nat} : ∀ n, (∀ j, j < n → f j = g j) → msum f n = msum g n
+  | 0, _ => rfl
+  | n + 1, h => by
+    simp only [msum]
+    rw [msum_congr n (fun j hj => h j (Nat.lt_succ_of_lt hj)), h n (Nat.lt_succ_self n)]
+
+theorem msum_lt {f g : Nat → Nat} (i : Nat) : ∀ n, i < n → (∀ j, j < n → j ≠ i → g j = f j) → g i < f i →
+    msum g n < msum f n
+  | 0, h, _, _ => absurd h (Nat.not_lt_zero i)
+  | n + 1, h, hoth, hi => by
+    simp only [msum]
+    by_cases e : i = n
+    · subst e
+      have := msum_congr (f := g) (g := f) i (fun j hj => hoth j (Nat.lt_succ_of_lt hj) (Nat.ne_of_lt hj))
+      omega
+    · have hlt : i < n := by omega
+      have := msum_lt i n hlt (fun j hj hne => hoth j (Nat.lt_succ_of_lt hj) hne) hi
+      have := hoth n (Nat.lt_succ_self n) (fun e' => e e'.symm)
+      omega
+
+/-- remaining work -/
+def remaining (cs : List Caller) (σ : State) : Nat := msum (fun j => 12 - rank (σ.pc j)) cs.length
+
+theorem remaining_step_lt {cs : List Caller} {σ : State} {i : Nat} (hi : i < cs.length)
+    (hne : (step cs σ i).pc i ≠ σ.pc i) : remaining cs (step cs σ i) < remaining cs σ := by
+  unfold remaining
+  apply msum_lt i _ hi
+  · intro j _ hj; simp only [step_pc_other cs σ i j hj]
+  · rcases step_rank cs σ i with h | h
+    · exact absurd h hne
+    · have := rank_le ((step cs σ i).pc i); omega
+
+
+/-- from every reachable state (all sites hold the mutex) the run can be completed -/
+theorem inv_can_complete {cs : List Caller} {base : Idx} (hall : HoldsAll cs) :
+    ∀ m σ, Inv cs base σ → remaining cs σ ≤ m → ∃ more, allDone cs (run cs σ more) := by
+  intro m
+  induction m with
+  | zero =>
+    intro σ hinv hm
+    by_cases hd : allDone cs σ
+    · exact ⟨[], hd⟩
+    · obtain ⟨i, hi, hne⟩ := inv_no_deadlock hall hinv hd
+      have := remaining_step_lt hi hne
+      omega
+  | succ m ih =>
+    intro σ hinv hm
+    by_cases hd : allDone cs σ
+    · exact ⟨[], hd⟩
+    · obtain ⟨i, hi, hne⟩ := inv_no_deadlock hall hinv hd
+      have hlt := remaining_step_lt hi hne
+      obtain ⟨more, hmore⟩ := ih (step cs σ i) (inv_step hall hinv i) (by omega)
+      exact ⟨i :: more, hmore⟩
+
+theorem run_append (cs : List Caller) (σ : State) (a b : List Nat) :
+    run cs σ (a ++ b) = run cs (run cs σ a) b := by
+  simp [run, List.foldl_append]
+
+
+/-! ## The harness's coarse schedules are schedules of the model -/
+
+/-- `σ'` is reached from `σ` by some fine schedule -/
+def Reach (cs : List Caller) (σ σ' : State) : Prop := ∃ l, σ' = run cs σ l
+
+theorem Reach.refl (cs : List Caller) (σ : State) : Reach cs σ σ := ⟨[], rfl⟩
+theorem Reach.trans {cs : List Caller} {a b c : State} (h1 : Reach cs a b) (h2 : Reach cs b c) : Reach cs a c := by
+  obtain ⟨l1, e1⟩ := h1; obtain ⟨l2, e2⟩ := h2
+  exact ⟨l1 ++ l2, by rw [run_append, ← e1, e2]⟩
+theorem Reach.step (cs : List Caller) (σ : State) (i : Nat) : Reach cs σ (step cs σ i) := ⟨[i], rfl⟩
+
+theorem advance_reach (cs : List Caller) : ∀ fuel σ i, Reach cs σ (advance cs fuel σ i)
+  | 0, σ, _ => Reach.refl cs σ
+  | fuel + 1, σ, i => by
+    unfold advance
+    simp only
+    split
+    · exact Reach.step cs σ i
+    · split
+      · exact Reach.step cs σ i
+      · exact (Reach.step cs σ i).trans (advance_reach cs fuel _ i)
+
+theorem settle_reach (cs : List Caller) (k : Coarse) : Reach cs k.σ (settle cs k).σ := by
+  unfold settle
+  generalize List.range cs.length = l
+  induction l generalizing k with
+  | nil => exact Reach.refl cs _
+  | cons j t ih =>
+    simp only [List.foldl_cons]
+    split
+    · exact (advance_reach cs 16 k.σ j).trans (ih _)
+    · exact ih _
+
+theorem coarseStep_reach (cs : List Caller) (k : Coarse) (i : Nat) : Reach cs k.σ (coarseStep cs k i).σ := by
+  unfold coarseStep
+  simp only
+  split
+  · exact Reach.refl cs _
+  · split
+    all_goals (try split)
+    all_goals (try split)
+    all_goals first
+      | exact settle_reach cs _
+      | exact (advance_reach cs 16 k.σ i).trans (settle_reach cs _)
+
+theorem coarseRun_reach (cs : List Caller) (base : Idx) (sched : List Nat) :
+    ∃ fine, (coarseRun cs base sched).σ = exec cs base fine := by
+  unfold coarseRun exec
+  have : ∀ (k : Coarse), Reach cs k.σ (sched.foldl (coarseStep cs) k).σ := by
+    induction sched with
+    | nil => intro k; exact Reach.refl cs _
+    | cons i t ih => intro k; exact (coarseStep_reach cs k i).trans (ih _)
+  exact this (Coarse.init base)
+
+
 end AddrIssue
